@@ -29,6 +29,8 @@ macro_rules! for_n {
             5 => { const $N: usize = 5; $e }
             8 => { const $N: usize = 8; $e }
             13 => { const $N: usize = 13; $e }
+            17 => { const $N: usize = 17; $e }
+            34 => { const $N: usize = 34; $e }
             _ => Err(format!("unsupported N {}", $n)),
         }
     };
@@ -351,25 +353,27 @@ impl<G: Grp> Lenient for Commitment<G> {
     }
 }
 fn pk_ped<const N: usize>(a: &[&str]) -> Res {
-    let pk = arg_de::<PublicKey<N>>(a, 2)?;
+    let pk = arg_key::<PublicKey<N>>(a, 2)?;
     match arg_usize(a, 0)? {
-        1 => Ok(vec![ser(&ToPedersenParameters::<G1Projective, N>::to_pedersen_parameters(&pk))]),
-        2 => Ok(vec![ser(&ToPedersenParameters::<G2Projective, N>::to_pedersen_parameters(&pk))]),
+        1 => Ok(vec![ser(&ToPedersenParameters::<G1Projective, N>::to_pedersen_parameters(&*pk))]),
+        2 => Ok(vec![ser(&ToPedersenParameters::<G2Projective, N>::to_pedersen_parameters(&*pk))]),
         _ => Err("G".into()),
     }
 }
 
 // ---------- Pointcheval-Sanders
 fn kp_new<const N: usize>(_a: &[&str]) -> Res {
-    Ok(vec![ser(&with_rng(|r| KeyPair::<N>::new(r)))])
+    let kp = remember(with_rng(|r| KeyPair::<N>::new(r)));
+    remember(kp.public_key().clone());
+    Ok(vec![ser(&*kp)])
 }
 fn sign<const N: usize>(a: &[&str]) -> Res {
-    let kp = arg_de::<KeyPair<N>>(a, 1)?;
+    let kp = arg_key::<KeyPair<N>>(a, 1)?;
     let m = msg_of::<N>(&arg_bytes(a, 2)?)?;
     Ok(put_sig(with_rng(|r| m.sign(r, &kp))))
 }
 fn sig_verify<const N: usize>(a: &[&str]) -> Res {
-    let pk = arg_de::<PublicKey<N>>(a, 1)?;
+    let pk = arg_key::<PublicKey<N>>(a, 1)?;
     let m = msg_of::<N>(&arg_bytes(a, 2)?)?;
     let s = get_sig(arg(a, 3)?)?;
     Ok(vec![b(s.verify(&pk, &m)), b(s.is_well_formed())])
@@ -395,7 +399,7 @@ fn op_bsig_randomize(a: &[&str]) -> Res {
     Ok(put_bsig(s))
 }
 fn msg_blind<const N: usize>(a: &[&str]) -> Res {
-    let pk = arg_de::<PublicKey<N>>(a, 1)?;
+    let pk = arg_key::<PublicKey<N>>(a, 1)?;
     let m = msg_of::<N>(&arg_bytes(a, 2)?)?;
     let bf = bf_of(&arg_bytes(a, 3)?)?;
     Ok(vec![ser(&m.blind(&pk, bf))])
@@ -404,7 +408,7 @@ fn msg_blind<const N: usize>(a: &[&str]) -> Res {
 /// allows: from a signature-request proof that verifies. The proof is simulated: random
 /// responses, `T := commit(responses) - c*C`.
 fn vbm_sim<const N: usize>(a: &[&str]) -> Res {
-    let pk = arg_de::<PublicKey<N>>(a, 1)?;
+    let pk = arg_key::<PublicKey<N>>(a, 1)?;
     let c_pt = g1_of(&arg_bytes(a, 2)?)?;
     let params: PedersenParameters<G1Projective, N> = pk.to_pedersen_parameters();
     let chal = ChallengeBuilder::new().with_bytes(b"vbm_sim").finish();
@@ -430,7 +434,7 @@ fn vbm_sim<const N: usize>(a: &[&str]) -> Res {
     }
 }
 fn vbm_sign<const N: usize>(a: &[&str]) -> Res {
-    let kp = arg_de::<KeyPair<N>>(a, 1)?;
+    let kp = arg_key::<KeyPair<N>>(a, 1)?;
     let v = get_vbm(arg(a, 2)?)?;
     Ok(put_bsig(with_rng(|r| v.blind_sign(&kp, r))))
 }
@@ -465,7 +469,7 @@ fn cp_verify<G: Grp, const N: usize>(a: &[&str]) -> Res {
     Ok(vec![b(proof.verify_knowledge_of_opening(&p, chal)), sc_hex(&chal.to_scalar())])
 }
 fn sp_prove<const N: usize>(a: &[&str]) -> Res {
-    let pk = arg_de::<PublicKey<N>>(a, 1)?;
+    let pk = arg_key::<PublicKey<N>>(a, 1)?;
     let m = msg_of::<N>(&arg_bytes(a, 2)?)?;
     let sig = get_sig(arg(a, 3)?)?;
     let opts = opts_of::<N>(arg(a, 4)?, &arg_bytes(a, 5)?)?;
@@ -495,7 +499,7 @@ fn put_sp(p: Box<dyn std::any::Any>) -> String {
     })
 }
 fn sp_verify<const N: usize>(a: &[&str]) -> Res {
-    let pk = arg_de::<PublicKey<N>>(a, 1)?;
+    let pk = arg_key::<PublicKey<N>>(a, 1)?;
     let mode = mode_of(arg(a, 3)?)?;
     let ctx = arg_bytes(a, 4)?;
     let tok = arg(a, 2)?;
@@ -514,7 +518,7 @@ fn sp_verify<const N: usize>(a: &[&str]) -> Res {
     }
 }
 fn srp_prove<const N: usize>(a: &[&str]) -> Res {
-    let pk = arg_de::<PublicKey<N>>(a, 1)?;
+    let pk = arg_key::<PublicKey<N>>(a, 1)?;
     let m = msg_of::<N>(&arg_bytes(a, 2)?)?;
     let opts = opts_of::<N>(arg(a, 3)?, &arg_bytes(a, 4)?)?;
     let ctx = arg_bytes(a, 5)?;
@@ -534,7 +538,7 @@ fn srp_prove<const N: usize>(a: &[&str]) -> Res {
     ])
 }
 fn srp_verify<const N: usize>(a: &[&str]) -> Res {
-    let pk = arg_de::<PublicKey<N>>(a, 1)?;
+    let pk = arg_key::<PublicKey<N>>(a, 1)?;
     let proof = arg_de::<SignatureRequestProof<N>>(a, 2)?;
     let chal = chal_for(&proof, mode_of(arg(a, 3)?)?, &arg_bytes(a, 4)?);
     match proof.verify_knowledge_of_opening(&pk, chal) {
